@@ -6,6 +6,7 @@ mod f3;
 mod fsm;
 mod img;
 mod mutimg;
+mod partition;
 mod seq;
 mod util;
 
@@ -25,6 +26,9 @@ fn main() {
         "seq" => seq::run(&opts),
         "tracegen" => crash::tracegen(&opts),
         "crash" => crash::run(&opts),
+        "partchild" => partition::partchild(&opts),
+        "partition" => partition::run(&opts),
+        "recrash" => crash::run_recrash(&opts),
         "f3child" => f3::f3child(&opts),
         "f3" => f3::run(&opts),
         "mutimg" => mutimg::run(&opts),
